@@ -8,6 +8,7 @@ import (
 	"io"
 	"os"
 	"os/exec"
+	"strconv"
 	"strings"
 	"sync"
 	"testing"
@@ -334,4 +335,47 @@ func FuzzC20(f *testing.F) {
 			t.Fatalf("canary: %s", c)
 		}
 	})
+}
+
+// TestC20FuzzReplay turns a failing input of the native fuzzer ($VERIF_FUZZ_INPUT, a corpus file)
+// into an ordinary case and runs it through the crash-isolated path, which writes the replay file.
+func TestC20FuzzReplay(t *testing.T) {
+	path := os.Getenv("VERIF_FUZZ_INPUT")
+	if path == "" {
+		t.Skip("no fuzz input")
+	}
+	defer func() { mu.Lock(); cur.stop(); cur = nil; mu.Unlock() }()
+	raw, err := os.ReadFile(path)
+	if err != nil {
+		t.Fatalf("INFRA: %v", err)
+	}
+	data, err := parseCorpus(raw)
+	if err != nil {
+		t.Fatalf("INFRA: %v", err)
+	}
+	info()
+	if len(data) == 0 {
+		return
+	}
+	g := &Gen{S: &ByteSrc{B: data[1:]}, Keys: keys, Paths: paths}
+	c := &Case{Reqs: []Req{g.Build(Methods[int(data[0])%len(Methods)])}}
+	check(t, c, "TestC20")
+}
+
+// parseCorpus reads the "go test fuzz v1" file format for a single []byte argument.
+func parseCorpus(raw []byte) ([]byte, error) {
+	lines := strings.Split(strings.TrimSpace(string(raw)), "\n")
+	if len(lines) < 2 || !strings.HasPrefix(lines[0], "go test fuzz v1") {
+		return nil, fmt.Errorf("not a corpus file")
+	}
+	l := strings.TrimSpace(lines[1])
+	if !strings.HasPrefix(l, "[]byte(") || !strings.HasSuffix(l, ")") {
+		return nil, fmt.Errorf("unexpected corpus line %q", l)
+	}
+	s, err := strconv.Unquote(l[len("[]byte(") : len(l)-1])
+	if err != nil {
+		return nil, err
+	}
+
+	return []byte(s), nil
 }
